@@ -51,11 +51,12 @@ Rd(e) ==
      \E t \in Read(st, e, h, mx) : Rec2(t, [op |-> "read", e |-> e, h |-> h, max |-> mx])
 Shut(e) == \E h \in AppHs(e) : \E t \in Shutdown(st, e, h) : Rec2(t, [op |-> "shutdown", e |-> e, h |-> h])
 Drp(e) == \E h \in AppHs(e) : \E t \in DropStream(st, e, h) : Rec2(t, [op |-> "drop", e |-> e, h |-> h])
+Cnc(e) == \E c \in DOMAIN st.calls[e] : \E t \in CancelCall(st, e, c) : Rec2(t, [op |-> "cancel", e |-> e, c |-> c])
 DMux(e) == \E t \in DropMux(st, e) : Rec2(t, [op |-> "drop_mux", e |-> e])
 DgS(e) ==
   /\ Len(st.dgSent[e]) < MaxDgrams
-  /\ \E host \in Hosts : \E t \in SendDgram(st, e, 1, host, 9, "dd", FALSE) :
-       Rec2(t, [op |-> "dg_send", e |-> e, id |-> 1, host |-> host, port |-> 9, data |-> "dd"])
+  /\ \E host \in Hosts, data \in {"dd", ""}, id \in {0, 1} : \E t \in SendDgram(st, e, id, host, 9, data, FALSE) :
+       Rec2(t, [op |-> "dg_send", e |-> e, id |-> id, host |-> host, port |-> 9, data |-> data])
 DgG(e) == \E t \in GetDgram(st, e) : Rec2(t, [op |-> "dg_get", e |-> e])
 Task(e) ==
   \E gr \in {0, 1}, gs \in {0, 1} :
@@ -98,7 +99,7 @@ BrDrop(e) == WithBridge /\ \E b \in DOMAIN st.br[e] : st.br[e][b].res \in {"ok",
 
 Next ==
   /\ Len(hist) < Depth
-  /\ \E e \in E : Open(e) \/ OpenP(e) \/ Acc(e) \/ Wr(e) \/ Rd(e) \/ Shut(e) \/ Drp(e) \/ DMux(e)
+  /\ \E e \in E : Open(e) \/ OpenP(e) \/ Acc(e) \/ Wr(e) \/ Rd(e) \/ Shut(e) \/ Drp(e) \/ DMux(e) \/ Cnc(e)
                   \/ DgS(e) \/ DgG(e) \/ Task(e) \/ Task(e) \/ Flt(e)
                   \/ BindS(e) \/ BindP(e) \/ NextB(e) \/ BReply(e) \/ BDrop(e)
                   \/ BrStart(e) \/ BrPoll(e) \/ BrDrop(e)
